@@ -955,6 +955,13 @@ func (d *Driver) judgeC09() {
 			if op.Inst != a.Inst || op.Gen != a.Gen || op.New == nil || !op.OK || (op.Kind != "create" && op.Kind != "update") {
 				continue
 			}
+			if strings.HasPrefix(op.Caller, "heartbeatLoop") {
+				// (a refresh of a leader that was demoted by another cause at the very instant of the
+				// stop call - a grace period expiring, say - and lands afterwards: whether the call
+				// still finds a leader was decided by the scheduler, as in the clause above; how long a
+				// demoted instance's last refresh keeps the record alive is the TTL, C06's bound)
+				continue
+			}
 			// written by an operation that was in flight when the call came, acknowledged (in time)
 			// before the call returned
 			if op.SInvoke > a.SInv || op.TRet < 0 || op.SRet > a.SRet || op.Err != nil || op.Fault != "" {
